@@ -451,6 +451,14 @@ func windowCase(idx int64, r *rand.Rand) {
 // concurrentMinimum: several goroutines Add to one MinimumMeasurement at the same moment; at quiescence Get must be the
 // minimum of everything added (each Add is atomic in correct code, so the order cannot matter).
 func concurrentMinimum(idx int64, r *rand.Rand) {
+	for round := 0; round < 40; round++ {
+		if !concurrentMinimumRound(idx, r) {
+			return
+		}
+	}
+}
+
+func concurrentMinimumRound(idx int64, r *rand.Rand) bool {
 	m := &measurements.MinimumMeasurement{}
 	m.Add(1e12)
 	n := 2 + r.IntN(7)
@@ -481,9 +489,10 @@ func concurrentMinimum(idx int64, r *rand.Rand) {
 	rt.Count("concurrent_minimum_rounds", 1)
 	if got := m.Get(); got != lo {
 		rt.Violation("C18/minimum/not-minimum-after-concurrent-adds", idx, rt.J{"added_concurrently": vals, "get": got, "want": lo})
-		return
+		return false
 	}
 	rt.Distinct(fmt.Sprintf("concmin|%v", vals))
+	return true
 }
 
 // varianceAlphaEffect (metamorphic): two moving variances that differ only in alphaVariance must not report the same
